@@ -506,18 +506,15 @@ fn construct<H: Sh, E: Sh>(r: &mut Rng, stats: &mut [u64; 8], allow: &mut isize)
     }
     match which {
         0 => ctor(allow, stats, faulty, zst, "Arc::from_header_and_iter", || Arc::from_header_and_iter(H::mk(htag), fiter::<E>(&tags, panic_at, claim, true))).and_then(|a| {
-            let m = a.slice.len().min(n);
-            slot(K::Fat(a), Some(htag), &tags[..m])
+            slot(K::Fat(a), Some(htag), &tags)
         }),
         1 => ctor(allow, stats, faulty, zst, "ThinArc::from_header_and_iter", || ThinArc::from_header_and_iter(H::mk(htag), fiter::<E>(&tags, panic_at, claim, true))).and_then(|t| {
-            let m = t.slice.len().min(n);
-            slot(K::Thin(t), Some(htag), &tags[..m])
+            slot(K::Thin(t), Some(htag), &tags)
         }),
         2 => {
             let exact = r.below(2) == 0;
             ctor(allow, stats, faulty, zst, "collect::<Arc<[E]>>", || fiter::<E>(&tags, panic_at, claim, exact).collect::<Arc<[E]>>()).and_then(|a| {
-                let m = a.len().min(n);
-                slot(K::Sl(a), None, &tags[..m])
+                slot(K::Sl(a), None, &tags)
             })
         }
         3 => {
